@@ -558,6 +558,12 @@ func redactPipelineStage(stage interface{}, redactFieldNames bool, keyPath []str
 							isSelectivelyRedactable := isRedactableFieldPatternInArray(subVTyped)
 							newSubMap.Set(redactedSubK, redactArrayValues(subVTyped, redactFieldNames, inSearchStage, isSelectivelyRedactable, append(newKeyPath, subK)))
 						default:
+							if str, ok := subV.(string); ok && len(str) > 0 && str[0] == '$' && redactFieldNames {
+								if _, isCoreOp := CoreOperators.Get(str); !isCoreOp {
+									newSubMap.Set(redactedSubK, HashName(str))
+									break
+								}
+							}
 							newSubMap.Set(redactedSubK, redactScalarValue(append(newKeyPath, subK), subV, inSearchStage, false))
 						}
 					}
@@ -565,8 +571,14 @@ func redactPipelineStage(stage interface{}, redactFieldNames bool, keyPath []str
 					continue
 				}
 			}
-			if str, ok := v.(string); ok && len(str) > 0 && str[0] == '$' && !redactFieldNames {
-				newMap.Set(redactedKey, v)
+			if str, ok := v.(string); ok && len(str) > 0 && str[0] == '$' {
+				// a "$field" reference: kept, or - with field-name redaction - replaced by the
+				// pseudonym of the field, as the query walker does
+				if _, isCoreOp := CoreOperators.Get(str); redactFieldNames && !isCoreOp {
+					newMap.Set(redactedKey, HashName(str))
+				} else {
+					newMap.Set(redactedKey, v)
+				}
 				continue
 			}
 			switch vTyped := v.(type) {
